@@ -660,11 +660,18 @@ fn evaluate(
         for (k, t) in &p.init_tokens {
             seen.insert((k.clone(), *t), usize::MAX);
         }
+        // a successful mutation that carried a CAS is outside the claim when the key may have been
+        // absent (the store takes over a client-derived number then); in a program that starts from a
+        // present key and contains no delete and no flush the key is there throughout, the CAS matched
+        // a live item, and the new token is the generator's like any other
+        let always_present = matches!(p.prog.init, Init::Present)
+            && p.prog.policy == Policy::None
+            && !p.prog.clients.iter().flatten().any(|c| matches!(c, Cmd::Delete { .. } | Cmd::Flush { .. }));
         for (i, o) in ops.iter().enumerate() {
             let cmd = &p.prog.clients[o.client][o.index];
             let mutating = matches!(cmd, Cmd::Store { .. } | Cmd::Concat { .. } | Cmd::Delta { .. });
             if let (true, Some(r), Some(k)) = (mutating, &o.resp, cmd.key()) {
-                if r.status == 0 && o.cas == 0 {
+                if r.status == 0 && (o.cas == 0 || always_present) {
                     if let Some(j) = seen.insert((k.to_vec(), r.cas), i) {
                         viol = Some((
                             "token-duplicated",
